@@ -2,6 +2,7 @@
 From Coq Require Import ZArith List.
 From VB Require Import Rules.RulesDefs Rules.RulesProofs.
 From VB Require Pop.SmDefs Pop.SmProofs Pop.SmWf Pop.SmTruth Rules.RulesFull Rules.RulesHist.
+From VB Require Import Rules.ForkDefs Rules.ForkProofs.
 Import ListNotations.
 Local Open Scope Z_scope.
 
@@ -86,3 +87,43 @@ Theorem C04_refused_not_activated :
     activate W P m (pre ++ (c, b) :: post) = (m, false).
 Proof. exact refused_not_activated. Qed.
 Print Assumptions C04_refused_not_activated.
+
+(** forks next to the active chain (Rules/ForkDefs.v: forks become known, are removed again, candidates are
+    activated): whether a candidate is accepted does not depend on which other forks exist, existed or were removed,
+    nor on what was active before — only on its own chain root..leaf *)
+Theorem C04_verdict_independent_of_other_forks :
+  forall W P h1 h2 ch,
+    snd (fstep W P (frun W P fm0 h1) (FActivate ch)) = snd (fstep W P (frun W P fm0 h2) (FActivate ch)).
+Proof. exact verdict_independent_of_other_forks. Qed.
+Print Assumptions C04_verdict_independent_of_other_forks.
+
+Theorem C04_verdict_iff_own_chain_valid :
+  forall W P h ch, snd (fstep W P (frun W P fm0 h) (FActivate ch)) = true <-> chain_valid W P st0 ch.
+Proof. exact verdict_iff_own_chain_valid. Qed.
+Print Assumptions C04_verdict_iff_own_chain_valid.
+
+Theorem C04_fork_machine_active_valid :
+  forall W P ops, let m := f_m (frun W P fm0 ops) in
+    chain_valid W P st0 (m_chain m) /\ m_st m = after_chain st0 (m_chain m).
+Proof. exact fork_machine_active_valid. Qed.
+Print Assumptions C04_fork_machine_active_valid.
+
+(** "no payload id twice in the chain" refers to the bodies below the block on its OWN chain and to nothing else *)
+Theorem C04_dup_rule_own_chain :
+  forall pre b,
+    no_dup_on_chain (after_chain st0 pre) b <->
+    (forall i, In i (body_ids b) -> forall c' b', In (c', b') pre -> ~ In i (body_ids b')).
+Proof. exact dup_rule_own_chain. Qed.
+Print Assumptions C04_dup_rule_own_chain.
+
+(** the payload index shared by all forks AS CODED (PayloadsIndex: id -> set of containing blocks, add on
+    acceptBlock, remove per block with the key cleaned up only when its set is empty; isStatefulDuplicate = some
+    containing block is on the chain below): after ANY history of blocks being accepted and dropped, its answer for
+    a block whose ancestors are held is exactly the per-chain duplicate check of exec_block *)
+Theorem C04_shared_index_dup_check_is_own_chain :
+  forall ops pre b,
+    (forall c bd, In (c, bd) pre -> hfind (h_blocks (hrun held0 ops)) c = Some bd) ->
+    ix_block_dup (h_index (hrun held0 ops)) (map fst pre) b
+    = existsb (fun i => pmem i (seen (after_chain st0 pre))) (body_ids b).
+Proof. exact shared_index_dup_check_is_own_chain. Qed.
+Print Assumptions C04_shared_index_dup_check_is_own_chain.
